@@ -115,7 +115,11 @@ func c08R1(c *Ctx, p *Prog) {
 
 // timeFlowEscapes follows values derived from time.Now/time.Since forward and
 // returns a description of the first use outside the sanctioned sinks.
-func timeFlowEscapes(fn *ssa.Function) string {
+func timeFlowEscapes(fn *ssa.Function) string { return timeFlowEscapesFrom(fn, nil, 0) }
+
+// timeFlowEscapesFrom: as timeFlowEscapes; with seeds (parameters of a helper that receive a clock value) the
+// clock reads of fn itself are not looked for again and a tainted return value is reported to the caller as "returned".
+func timeFlowEscapesFrom(fn *ssa.Function, seeds []ssa.Value, depth int) string {
 	tainted := map[ssa.Value]bool{}
 	var work []ssa.Value
 	add := func(v ssa.Value) {
@@ -124,7 +128,13 @@ func timeFlowEscapes(fn *ssa.Function) string {
 			work = append(work, v)
 		}
 	}
+	for _, sd := range seeds {
+		add(sd)
+	}
 	allInstrs(fn, func(in ssa.Instruction) {
+		if seeds != nil {
+			return
+		}
 		if call, ok := in.(*ssa.Call); ok {
 			if f := calleeObj(call); f != nil && f.Pkg() != nil && f.Pkg().Path() == "time" && (f.Name() == "Now" || f.Name() == "Since") {
 				add(call)
@@ -174,6 +184,25 @@ func timeFlowEscapes(fn *ssa.Function) string {
 					}
 					return fmt.Sprintf("(time-derived value passed to softAbort in a position other than elapsed at %s)", fn.Prog.Fset.Position(x.Pos()))
 				default:
+					// a helper of package search: the value may only go where it may go here
+					h := x.Call.StaticCallee()
+					if h != nil && isOwn(h) && h.Blocks != nil && relPkg(fnPkgPath(h)) == "search" && depth < 3 {
+						var sd []ssa.Value
+						for i, a := range x.Call.Args {
+							if a == v && i < len(h.Params) {
+								sd = append(sd, h.Params[i])
+							}
+						}
+						switch esc := timeFlowEscapesFrom(h, sd, depth+1); esc {
+						case "":
+							continue
+						case "(time-derived value returned)":
+							add(x)
+							continue
+						default:
+							return esc
+						}
+					}
 					return fmt.Sprintf("(time-derived value passed to %s at %s)", objName(f), fn.Prog.Fset.Position(x.Pos()))
 				}
 			case *ssa.Store:
@@ -357,26 +386,29 @@ func c08R3(c *Ctx, p *Prog) {
 			n++
 			name := fnName(fn)
 			if name != "search.(*Search).iterativeDeepen" {
-				c.Fail(rule, name+"#softAbort", ci.Pos(), "softAbort is consulted in %s: soft limits must only act between iterations", name)
+				// a helper that only iterativeDeepen calls: the rule moves to its call sites there
+				it := p.Func("search.(*Search).iterativeDeepen")
+				private := it != nil && relPkg(fnPkgPath(fn)) == "search"
+				var sites []ssa.CallInstruction
+				if private {
+					for _, caller := range p.OwnFuncs() {
+						cs := callsInFn(caller, fn)
+						if len(cs) > 0 && caller != it {
+							private = false
+						}
+						if caller == it {
+							sites = cs
+						}
+					}
+				}
+				if !private || len(sites) == 0 {
+					c.Fail(rule, name+"#softAbort", ci.Pos(), "softAbort is consulted in %s: soft limits must only act between iterations", name)
+					continue
+				}
+				c08SoftHelper(c, p, it, fn, ci, sites)
 				continue
 			}
-			// outside the aspiration loop: no alphaBeta call can follow without passing the depth increment;
-			// and after adoption: some store to the `move` result dominates or reaches it in the same iteration
-			again := ""
-			for _, d := range callsIn(fn, "search.(*Search).alphaBeta") {
-				if r, _ := reachAvoiding(ci.(ssa.Instruction), d.(ssa.Instruction), func(x ssa.Instruction) bool {
-					bo, ok := x.(*ssa.BinOp)
-					if !ok || bo.Op != token.ADD {
-						return false
-					}
-					k, isc := constOf(bo.Y)
-					_, isPhi := stripConv(bo.X).(*ssa.Phi)
-					return isc && k == 1 && isPhi && isDepthTyped(bo)
-				}); r {
-					again = p.Rel(d.Pos())
-				}
-			}
-			c.Check(again == "", rule, name+"#softAbort-between-iterations", ci.Pos(), "after consulting the soft limit the search continues only into the next depth %s", again)
+			c08BetweenIterations(c, p, fn, ci, name)
 			// nodes argument is Counters.Nodes
 			okArg := false
 			if len(ci.Common().Args) == 3 {
@@ -647,6 +679,19 @@ func c08SoftNeedsMove(c *Ctx, p *Prog, fn *ssa.Function, ci ssa.CallInstruction)
 		if !hit {
 			return
 		}
+		// a return reached through the next iteration's depth increment (the depth limit ends the loop) is not a soft stop
+		nextIter := false
+		bp.instrsOnPath(ci.(ssa.Instruction), func(in ssa.Instruction, _ int) {
+			if bo, ok := in.(*ssa.BinOp); ok && bo.Op == token.ADD && isDepthTyped(bo) {
+				k, isc := constOf(bo.Y)
+				if _, isPhi := stripConv(bo.X).(*ssa.Phi); isc && k == 1 && isPhi {
+					nextIter = true
+				}
+			}
+		})
+		if nextIter {
+			return
+		}
 		hits++
 		if !known && !bad.IsValid() {
 			last := bp.Blocks[len(bp.Blocks)-1]
@@ -665,5 +710,150 @@ func c08SoftNeedsMove(c *Ctx, p *Prog, fn *ssa.Function, ci ssa.CallInstruction)
 		c.Fail(rule, key, bad, "the search can stop at a soft limit without a move in hand (no `move != 0` on the path from softAbort to this return): after N nodes it returns the null move, while the hard-budget replay with N nodes aborts inside the next iteration and takes the first-legal-move fallback, so the two disagree")
 	default:
 		c.Ok(rule, key, ci.Pos(), "every soft stop (%d paths) is taken with move != 0, as the hard-budget replay's fallback presumes", hits)
+	}
+}
+
+// c08BetweenIterations: outside the aspiration loop — after the soft limit was consulted at ci no root search call
+// can follow without passing the depth increment.
+func c08BetweenIterations(c *Ctx, p *Prog, fn *ssa.Function, ci ssa.CallInstruction, name string) {
+	const rule = "C08.R3"
+	again := ""
+	for _, d := range callsIn(fn, "search.(*Search).alphaBeta") {
+		if r, _ := reachAvoiding(ci.(ssa.Instruction), d.(ssa.Instruction), func(x ssa.Instruction) bool {
+			bo, ok := x.(*ssa.BinOp)
+			if !ok || bo.Op != token.ADD {
+				return false
+			}
+			k, isc := constOf(bo.Y)
+			_, isPhi := stripConv(bo.X).(*ssa.Phi)
+			return isc && k == 1 && isPhi && isDepthTyped(bo)
+		}); r {
+			again = p.Rel(d.Pos())
+		}
+	}
+	c.Check(again == "", rule, name+"#softAbort-between-iterations", ci.Pos(), "after consulting the soft limit the search continues only into the next depth %s", again)
+}
+
+// c08SoftHelper: softAbort is consulted inside helper h (call ci), which only iterativeDeepen calls (sites).
+func c08SoftHelper(c *Ctx, p *Prog, it, h *ssa.Function, ci ssa.CallInstruction, sites []ssa.CallInstruction) {
+	const rule = "C08.R3"
+	name := fnName(it)
+	_, mvPhis, mvAlloc := resultWeb(it, 1)
+	isMove := func(v ssa.Value) bool {
+		v = stripConv(v)
+		if ph, ok := v.(*ssa.Phi); ok && mvPhis[ph] {
+			return true
+		}
+		if ld, ok := v.(*ssa.UnOp); ok && ld.Op == token.MUL && mvAlloc != nil && ld.X == ssa.Value(mvAlloc) {
+			return true
+		}
+		return false
+	}
+	// nodes argument: Counters.Nodes, read in the helper or handed in
+	okArg := false
+	if args := ci.Common().Args; len(args) == 3 {
+		a := stripConv(args[2])
+		if q, ok := directFieldLoadAny(a); ok && q == "search.Counters.Nodes" {
+			okArg = true
+		}
+		if par, ok := a.(*ssa.Parameter); ok {
+			okArg = true
+			for pi, hp := range h.Params {
+				if hp != par {
+					continue
+				}
+				for _, s := range sites {
+					if pi >= len(s.Common().Args) {
+						okArg = false
+						continue
+					}
+					if q, ok := directFieldLoadAny(stripConv(s.Common().Args[pi])); !ok || q != "search.Counters.Nodes" {
+						okArg = false
+					}
+				}
+			}
+		}
+	}
+	c.Check(okArg, rule, name+"#softAbort-nodes", ci.Pos(), "the soft node limit is compared with Counters.Nodes")
+	// does the helper promise `true ⇒ move != 0` for a move parameter bound to the result move at every site?
+	movePar := map[ssa.Value]bool{}
+	for pi, hp := range h.Params {
+		all := len(sites) > 0
+		for _, s := range sites {
+			if pi >= len(s.Common().Args) || !isMove(s.Common().Args[pi]) {
+				all = false
+			}
+		}
+		if all {
+			movePar[hp] = true
+		}
+	}
+	parFact := func(v ssa.Value, truth bool) bool {
+		for {
+			if u, ok := v.(*ssa.UnOp); ok && u.Op == token.NOT {
+				v, truth = u.X, !truth
+				continue
+			}
+			break
+		}
+		bo, ok := v.(*ssa.BinOp)
+		if !ok || (bo.Op != token.EQL && bo.Op != token.NEQ) {
+			return false
+		}
+		for _, pr := range [][2]ssa.Value{{bo.X, bo.Y}, {bo.Y, bo.X}} {
+			if k, isc := constOf(pr[1]); isc && k == 0 && movePar[stripConv(pr[0])] {
+				return (bo.Op == token.NEQ) == truth
+			}
+		}
+		return false
+	}
+	callV, _ := ci.(ssa.Value)
+	promises, decided := true, h.Signature.Results().Len() == 1 && callV != nil
+	if decided {
+		pre := false
+		for _, ce := range controllingConds(ci.Block()) {
+			if parFact(ce.Cond, ce.True) {
+				pre = true
+			}
+		}
+		complete := enumBlockPaths(ci.Block(), nil, 20000, func(bp *bpath) {
+			if bp.End != "return" {
+				return
+			}
+			last := bp.Blocks[len(bp.Blocks)-1]
+			ret := last.Instrs[len(last.Instrs)-1].(*ssa.Return)
+			rv := bp.resolve(returnedValue(ret, 0))
+			if k, isc := rv.(*ssa.Const); isc {
+				if kv, _ := constOf(k); kv == 0 {
+					return
+				}
+			}
+			known := pre
+			for _, pc := range bp.Conds {
+				if parFact(pc.V, pc.True) {
+					known = true
+				}
+				if pc.V == callV && !pc.True && rv == callV {
+					return // returns the (false) answer of softAbort
+				}
+			}
+			// `return best != 0 && softAbort(..)`: the returned value itself may be the conjunction's phi resolved to the call
+			if !known {
+				promises = false
+			}
+		})
+		if !complete {
+			decided = false
+		}
+	}
+	for _, s := range sites {
+		c08BetweenIterations(c, p, it, s, name)
+		switch {
+		case decided && promises:
+			// the stop decision carries the guarantee; the call site only has to return on it
+			c.Ok(rule, name+"#softAbort-needs-move", s.Pos(), "%s answers true only with a non-null move (bound to the result move here): a soft stop is taken with a move in hand", h.Name())
+		default:
+			c08SoftNeedsMove(c, p, it, s)
+		}
 	}
 }
